@@ -95,7 +95,8 @@ func TestVX_C15_Encoding(t *testing.T) {
 	}
 	pts := c14points()
 	valid := [][]byte{}
-	for name, p := range pts {
+	for _, name := range sortedPts(pts) {
+		p := pts[name]
 		e := encRef(p)
 		run(e, "valid:"+name)
 		if !p.Inf {
@@ -123,7 +124,9 @@ func TestVX_C15_Encoding(t *testing.T) {
 	max := new(big.Int).Sub(new(big.Int).Lsh(one, 256), one)
 	for _, v := range valid[:3] {
 		for ci, off := range []int{1, 33} {
-			for vn, val := range map[string]*big.Int{"p": sm2ref.P, "p+1": new(big.Int).Add(sm2ref.P, one), "max": max} {
+			vals := map[string]*big.Int{"p": sm2ref.P, "p+1": new(big.Int).Add(sm2ref.P, one), "max": max}
+			for _, vn := range []string{"p", "p+1", "max"} {
+				val := vals[vn]
 				b := append([]byte{}, v...)
 				copy(b[off:off+32], sm2ref.Bytes32(val))
 				run(b, fmt.Sprintf("coord%d=%s", ci, vn))
@@ -233,10 +236,7 @@ func TestVX_C15_PublicArith(t *testing.T) {
 		c15peval(r, c, pts)
 		return
 	}
-	names := []string{}
-	for k := range pts {
-		names = append(names, k)
-	}
+	names := sortedPts(pts)
 	n := 0
 	for _, a := range names {
 		for _, b := range names {
